@@ -36,17 +36,34 @@ def run(ctx):
     trees = fc_trees(ctx)
     terms, meta = [], []
     n_nontrivial = 0
+    from ahbicht.expressions.format_constraint_expression_evaluation import evaluate_format_constraint_tree
+    from ahbicht.models.condition_nodes import EvaluatedFormatConstraint
+
     for t in trees:
         keys = sorted(set(exprs.leaves(t)))
         s = exprs.to_string(t)
         assigns = list(itertools.product((True, False), repeat=len(keys)))
         if len(assigns) > 8:
             assigns = ctx.rng.sample(assigns, 8)
+        try:
+            same_tree = parse_condition_expression_to_tree(s)   # ONE tree object, evaluated under every assignment below
+        except BaseException:  # pylint: disable=broad-except
+            same_tree = None
         for vals in assigns:
             for mode in ("std",) if len(keys) > 2 and ctx.quick else ("std", "none", "all"):
                 fc = {k: (v, msg_of(k, v, mode)) for k, v in zip(keys, vals)}
                 evalimpl.set_cer(fc=fc)
                 raw = evalimpl.outcome(lambda: evalimpl.fc_evaluation(s))
+                if same_tree is not None and raw[0] == "ok" and all(x[0] != "then" for x in _nodes(t)):
+                    # evaluating an already parsed tree again (other assignment) gives what evaluating the string gives
+                    again = evalimpl.outcome(lambda: evaluate_format_constraint_tree(
+                        same_tree, {k: EvaluatedFormatConstraint(format_constraint_fulfilled=v[0], error_message=v[1]) for k, v in fc.items()}))
+                    with_msg = mode != "none"   # without messages on the inputs the evaluator layer supplies defaults the tree level does not
+                    got = (again[1].format_constraint_fulfilled, again[1].error_message if with_msg else None) if again[0] == "ok" else again
+                    if got != (raw[1].format_constraints_fulfilled, raw[1].error_message if with_msg else None):
+                        ctx.fail(f"{s}|{sorted(fc.items())}|same-tree", {"fc_expression": s, "fc": {k: list(v) for k, v in fc.items()}},
+                                 f"{(raw[1].format_constraints_fulfilled, raw[1].error_message)}", str(got),
+                                 "oracle: a tree evaluated before (under another assignment) evaluates like a freshly parsed one")
                 # the model gets the tree ahbicht itself parsed from the string
                 try:
                     pt = exprs.from_lark(parse_condition_expression_to_tree(s))
